@@ -15,7 +15,8 @@ import (
 func baseOps() map[string]int {
 	return map[string]int{"load": 10, "load-low": 3, "load-up": 3, "load-hold": 1, "complete": 3, "occupy": 1, "cordon": 1, "uncordon": 1,
 		"force-taint": 1, "unforce": 0, "ext-taint-time": 1, "ext-taint-odd": 1, "foreign-taint": 1, "annotate": 1, "annotate-empty": 0,
-		"unannotate": 1, "asg-bounds": 1, "pending-big": 1}
+		"unannotate": 1, "asg-bounds": 1, "pending-big": 1, "foreign-pod": 1, "resize-pod": 1, "resize-nodes": 0, "drain-group": 0,
+		"asg-max-down": 1, "refresh-fails": 1}
 }
 
 func with(m map[string]int, kv ...interface{}) map[string]int {
@@ -44,7 +45,7 @@ func init() {
 	p.PBoundary = 0.7
 	p.PRestart = 0.08
 	p.PFleet = 0
-	p.Ops = with(baseOps(), "load", 4, "load-low", 8, "complete", 6, "occupy", 4, "ext-taint-time", 5, "ext-taint-odd", 2, "annotate", 3, "annotate-empty", 1, "unannotate", 2, "cordon", 2, "force-taint", 2, "load-up", 1)
+	p.Ops = with(baseOps(), "foreign-pod", 3, "load", 4, "load-low", 8, "complete", 6, "occupy", 4, "ext-taint-time", 5, "ext-taint-odd", 2, "annotate", 3, "annotate-empty", 1, "unannotate", 2, "cordon", 2, "force-taint", 2, "load-up", 1)
 	Profiles["reaper"] = p
 
 	p = general
@@ -54,7 +55,7 @@ func init() {
 	p.PRestart = 0.02
 	p.PFault = 0.03
 	p.PFleet = 0.25
-	p.Ops = with(baseOps(), "load-up", 8, "load-low", 6, "cordon", 5, "uncordon", 1, "force-taint", 4, "ext-taint-time", 5, "complete", 4, "load", 4)
+	p.Ops = with(baseOps(), "load-up", 8, "load-low", 6, "cordon", 5, "uncordon", 1, "force-taint", 4, "ext-taint-time", 5, "complete", 4, "load", 4, "refresh-fails", 4)
 	Profiles["lock"] = p
 
 	p = general
@@ -73,7 +74,7 @@ func init() {
 	p.Setup = "force-then-up"
 	p.PTies = 0.3
 	p.MaxNodes = 14
-	p.Ops = with(baseOps(), "load-up", 10, "load", 8, "load-low", 5, "force-taint", 3, "ext-taint-time", 3, "complete", 3)
+	p.Ops = with(baseOps(), "load-up", 10, "load", 8, "load-low", 5, "force-taint", 3, "ext-taint-time", 3, "complete", 3, "asg-max-down", 3, "refresh-fails", 2)
 	Profiles["scaleup"] = p
 
 	p = general
@@ -81,7 +82,7 @@ func init() {
 	p.Setup = "from-zero"
 	p.MinZero = 1
 	p.PFleet = 0.1
-	p.Ops = with(baseOps(), "load", 8, "load-up", 6, "load-low", 6, "complete", 5)
+	p.Ops = with(baseOps(), "load", 8, "load-up", 6, "load-low", 6, "complete", 5, "resize-nodes", 2, "drain-group", 2)
 	p.ShortGrace = true
 	p.PBoundary = 0.6
 	Profiles["fromzero"] = p
@@ -100,7 +101,7 @@ func init() {
 	p.MinGroups, p.MaxGroups = 1, 3
 	p.ShortGrace = true
 	p.PBoundary = 0.6
-	p.Ops = with(baseOps(), "load-up", 5, "load-low", 6, "ext-taint-time", 5, "force-taint", 4, "complete", 4, "cordon", 2)
+	p.Ops = with(baseOps(), "load-up", 5, "load-low", 6, "ext-taint-time", 5, "force-taint", 4, "complete", 4, "cordon", 2, "ext-taint-odd", 3)
 	Profiles["dry"] = p
 
 	p = general
@@ -116,7 +117,7 @@ func init() {
 	p.StatelessClock = true
 	p.SortedView = true
 	p.ShortGrace = true
-	p.Ops = with(baseOps(), "load-low", 5, "load-up", 4, "ext-taint-time", 3, "complete", 3, "label-drift", 0)
+	p.Ops = with(baseOps(), "load-low", 5, "load-up", 4, "ext-taint-time", 3, "complete", 3, "label-drift", 0, "refresh-fails", 0, "foreign-pod", 3)
 	Profiles["multi"] = p
 
 	p = general
@@ -149,7 +150,7 @@ func init() {
 	p.PBoundary = 0.7
 	p.PExternal = 0.05
 	p.Setup = "force-then-up"
-	p.Ops = with(baseOps(), "load-up", 6, "load-low", 6, "ext-taint-time", 5, "force-taint", 3, "complete", 4, "cordon", 1)
+	p.Ops = with(baseOps(), "load-up", 6, "load-low", 6, "ext-taint-time", 5, "force-taint", 3, "complete", 4, "cordon", 1, "refresh-fails", 0)
 	Profiles["enum"] = p
 
 	p = general
